@@ -142,6 +142,9 @@ class Rig:
         self.flat = []             # the history as executed: nested (re-entrant) operations as events of their own
         self.frames = []           # observation frames of the event being executed
         self.in_disc = False
+        self.note_count = 0        # notifications delivered so far
+        self.policy = []           # [n, request] : the listener of the n-th notification issued that request
+        self.top = []              # the top-level events as executed
         self.last_raised = False
         self.last_hung = False
         self.obs_after_nested = 0  # observations the outer handler produced after a re-entrant call returned
@@ -195,14 +198,14 @@ class Rig:
         self._bump(1, mem.id)
         self.notes.append((self.ev_index, ('rok', self._uid_of(mem, 'r'), mem.id, addr, list(data))))
         img = {a: b for (j, a), b in self.image.items() if j == mem.id} if self.want_pre else None
-        self.stream.append(('n', self.notes[-1][1], img))
+        self.stream.append(('n', self.notes[-1][1], img, self.locked()))
         self.cur += [2, self._uid_of(mem, 'r'), mem.id, addr, len(data)] + list(data)
         self._react(mem, 'ok')
 
     def _rfail(self, mem, addr, data):
         self._bump(1, mem.id)
         self.notes.append((self.ev_index, ('rfail', self._uid_of(mem, 'r'), mem.id, addr, list(data))))
-        self.stream.append(('n', self.notes[-1][1]))
+        self.stream.append(('n', self.notes[-1][1], None, self.locked()))
         self.cur += [3, self._uid_of(mem, 'r'), mem.id, addr, len(data)] + list(data)
         self._react(mem, 'fail')
 
@@ -210,14 +213,14 @@ class Rig:
         self._bump(2, mem.id)
         self.notes.append((self.ev_index, ('wok', self._uid_of(mem, 'w'), mem.id, addr)))
         img = {a: b for (j, a), b in self.image.items() if j == mem.id} if self.want_pre else None
-        self.stream.append(('n', self.notes[-1][1], img))
+        self.stream.append(('n', self.notes[-1][1], img, self.locked()))
         self.cur += [4, self._uid_of(mem, 'w'), mem.id, addr]
         self._react(mem, 'ok')
 
     def _wfail(self, mem, addr):
         self._bump(2, mem.id)
         self.notes.append((self.ev_index, ('wfail', self._uid_of(mem, 'w'), mem.id, addr)))
-        self.stream.append(('n', self.notes[-1][1]))
+        self.stream.append(('n', self.notes[-1][1], None, self.locked()))
         self.cur += [5, self._uid_of(mem, 'w'), mem.id, addr]
         self._react(mem, 'fail')
 
@@ -301,15 +304,21 @@ class Rig:
         self.cur = self.frames[-1]['obs']
 
     def _react(self, mem, kind):
+        """end of every notification listener: n-th notification delivered; the listener may issue a request"""
+        n = self.note_count
+        self.note_count += 1
         r = getattr(mem, 'react', None)
-        if not r or self.in_disc or r['on'] not in ('any', kind):
+        if not r or r['on'] not in ('any', kind):
             return
         mem.react = None
-        self.frames[-1]['lock'] = self.locked()
+        self.policy.append([n, strip(r['op'])])
+        lk = self.locked()
         self._new_frame(True)
         self.frames[-1]['nested'] = True
+        self.frames[-1]['lock'] = lk                 # was the write lock held when the listener made its call
+        self.frames[-1]['in_disc'] = self.in_disc
         self._issue(r['op'])
-        self.frames[-1]['mark'] = len(self.cur)      # what the outer handler does from here on is out of place
+        self.frames[-1]['mark'] = len(self.cur)      # what a reply / error-status handler does from here on is out of place
 
     def _issue(self, ev):
         self.flat.append(strip(ev))
@@ -322,8 +331,9 @@ class Rig:
             if r:
                 self.uid += 1
         else:
-            self.uid += 1
             r = self.mem.write(m, ev[2], bytearray(ev[3]), flush_queue=bool(ev[4]))
+            if r:
+                self.uid += 1
         self.cur += [6, 1 if r else 0]
         self.stream.append(('opret', ev, u0, self.uid))
 
@@ -400,6 +410,7 @@ class Rig:
         """Execute one event on the real code; returns the integers of this event (and of the operations issued from
         inside its notifications, as events of their own) as `sys_trace` encodes them."""
         self.ev_index += 1
+        self.top.append(strip(ev) if ev[0] in ('R', 'W') else list(ev))
         fr = self.fresh(ev)
         self.frames = []
         self._new_frame(fr)
@@ -436,11 +447,10 @@ class Rig:
             self.cur += [7]
             self.last_raised = True
             self.last_exc = '%s: %s' % (type(e).__name__, e)
-        out = []
-        for f in self.frames:
-            lock = self.locked() if f['lock'] is None else f['lock']
-            out += [9, 1 if f['fresh'] else 0, 1 if lock else 0] + f['obs']
-            if f['nested'] and len(f['obs']) > f.get('mark', len(f['obs'])):
+        out = [9, 1 if self.frames[0]['fresh'] else 0, 1 if self.locked() else 0] + self.frames[0]['obs']
+        for f in self.frames[1:]:
+            out += [19, 1 if f['lock'] else 0] + f['obs']       # a request made from inside a notification
+            if not f.get('in_disc') and len(f['obs']) > f.get('mark', len(f['obs'])):
                 self.obs_after_nested += 1
         return out
 
